@@ -42,6 +42,7 @@ func scanResult(name, family string, ok bool, detail string) *OblResult {
 func init() {
 	scanKinds["global_const_slice"] = scanGlobalConstSlice
 	scanKinds["global_newint"] = scanGlobalNewInt
+	scanKinds["global_const"] = scanGlobalConst
 	scanKinds["handler_census"] = scanHandlerCensus
 	scanKinds["only_callers"] = scanOnlyCallers
 }
@@ -124,6 +125,68 @@ func scanGlobalConstSlice(P *Program, sp ScanSpec) []*OblResult {
 		return []*OblResult{scanResult(sp.Name, "F8", false, fmt.Sprintf("%s = [%s], contract requires [%s]", sp.Args["name"], strings.Join(got, ","), strings.Join(sp.List, ",")))}
 	}
 	return []*OblResult{scanResult(sp.Name, "F8", true, fmt.Sprintf("%s = [%s], single store in init", sp.Args["name"], strings.Join(got, ",")))}
+}
+
+// global_const: the package variable Args[name] of package Args[pkg] is assigned exactly once, in the
+// package initialiser, from the constant Args[value] (possibly through a type conversion). This
+// validates `requires name == value` clauses.
+func scanGlobalConst(P *Program, sp ScanSpec) []*OblResult {
+	pkg := P.ssaPkg(sp.Args["pkg"])
+	if pkg == nil {
+		return []*OblResult{scanResult(sp.Name, "F8", false, "package not loaded: "+sp.Args["pkg"])}
+	}
+	g, ok := pkg.Members[sp.Args["name"]].(*ssa.Global)
+	if !ok {
+		return []*OblResult{scanResult(sp.Name, "F8", false, "no such package variable: "+sp.Args["name"])}
+	}
+	var stores []*ssa.Store
+	var where []string
+	for fn := range ssautil.AllFunctions(P.SSA) {
+		for _, b := range fn.Blocks {
+			for _, in := range b.Instrs {
+				if s, ok := in.(*ssa.Store); ok && rootGlobal(s.Addr) == g {
+					stores = append(stores, s)
+					where = append(where, CanonName(fn))
+				}
+				// taking the address for anything but a load or a store could hide a write
+				if u, ok := in.(*ssa.UnOp); ok && u.X == ssa.Value(g) {
+					continue
+				}
+				if _, isStore := in.(*ssa.Store); !isStore {
+					for _, op := range in.Operands(nil) {
+						if *op == ssa.Value(g) {
+							if _, isLoad := in.(*ssa.UnOp); !isLoad {
+								where = append(where, CanonName(fn)+" (address escapes)")
+							}
+						}
+					}
+				}
+			}
+		}
+	}
+	if len(stores) != 1 || len(where) != 1 || !strings.HasSuffix(where[0], ".init") {
+		return []*OblResult{scanResult(sp.Name, "F8", false, fmt.Sprintf("variable %s is written at %v (want exactly one store, in init)", sp.Args["name"], where))}
+	}
+	v := stores[0].Val
+	for {
+		switch c := v.(type) {
+		case *ssa.Convert:
+			v = c.X
+			continue
+		case *ssa.ChangeType:
+			v = c.X
+			continue
+		}
+		break
+	}
+	c, ok := v.(*ssa.Const)
+	if !ok || c.Value == nil {
+		return []*OblResult{scanResult(sp.Name, "F8", false, "initialiser is not a constant")}
+	}
+	if got := c.Value.ExactString(); got != sp.Args["value"] {
+		return []*OblResult{scanResult(sp.Name, "F8", false, fmt.Sprintf("%s = %s, contract requires %s", sp.Args["name"], got, sp.Args["value"]))}
+	}
+	return []*OblResult{scanResult(sp.Name, "F8", true, fmt.Sprintf("%s = %s, single store in init", sp.Args["name"], sp.Args["value"]))}
 }
 
 func rootGlobal(v ssa.Value) *ssa.Global {
